@@ -43,7 +43,10 @@ def rtd_case(draw):
     return {'kind': 'rtd', 'R0': draw(st.one_of(st.sampled_from([100.0, 1000.0, 500.0]), _f(10.0, 2000.0))),
             'A': A0 * draw(_f(0.95, 1.05)), 'B': B0 * draw(_f(0.95, 1.05)), 'C': C0 * draw(_f(0.95, 1.05)),
             'I': draw(_f(1e-4, 1e-2)), 'wires': k, 'lead': draw(st.one_of(st.just(0.0), _f(0.0, 10.0))), 'T': temps,
-            'via_file': draw(st.booleans())}
+            'via_file': draw(st.booleans()),
+            # a second sensor (different Callendar-Van Dusen coefficients) measured with the same circuit: its scaling is
+            # evaluated on the SAME voltages right after the first one
+            'alt': [A0 * draw(_f(0.95, 1.05)), B0 * draw(_f(0.95, 1.05)), C0 * draw(_f(0.95, 1.05))]}
 
 
 def rtd_forward(c, T):
@@ -124,6 +127,21 @@ def strain_forward(c, eps):
         R4 = R0 * (1 + e * G)
     vo = (R3 / (R3 + R4) - R2 / (R1 + R2)) * c['Vex']
     return vo + c['Vinit']
+
+
+def rtd_invert(c, volts):
+    """numerical inverse of the forward law by bisection (R(T) is increasing on the sensor's range)"""
+    out = []
+    for v in volts:
+        lo, hi = -260.0, 1000.0
+        for _ in range(200):
+            mid = 0.5 * (lo + hi)
+            if rtd_forward(c, mid) < v:
+                lo = mid
+            else:
+                hi = mid
+        out.append(0.5 * (lo + hi))
+    return out
 
 
 def _scale_obj(c):
@@ -223,6 +241,24 @@ def check(case, rec):
         rec.violation('%s:raised' % kind, 'parameters %r inputs %r: %s' % (
             {k: v for k, v in c.items() if k not in ('T', 'eps', 'lnR')}, truth, describe_exc(e)), key=exc_key(e))
         return
+    if kind == 'rtd' and c.get('alt'):
+        c2 = dict(c, A=c['alt'][0], B=c['alt'][1], C=c['alt'][2], alt=None)
+        want2 = rtd_invert(c2, volts)
+        try:
+            got2 = run_scaling(c2, volts)
+        except InputModified as e:
+            rec.violation('rtd:raw_modified', str(e))
+            return
+        except Exception as e:      # noqa
+            got2 = None
+            if all(-200.0 <= w <= 850.0 for w in want2):
+                rec.violation('rtd:raised', 'second sensor on the same voltages: %s' % describe_exc(e), key=exc_key(e))
+        if got2 is not None:
+            for w, g2 in zip(want2, got2):
+                if -200.0 <= w <= 850.0 and not abs(g2 - w) <= 1e-6 * max(abs(w), 1.0) + 1e-9:
+                    rec.violation('rtd:inverse', 'second sensor (A,B,C = %r) on the same voltages: true value %r, scaling returned '
+                                  '%r; first sensor %r' % (c['alt'], w, float(g2), {k: c[k] for k in ('R0', 'A', 'B', 'C', 'wires', 'lead')}))
+                    break
     for t, g in zip(truth, got):
         tol = 1e-6 * max(abs(t), x0)
         if not abs(g - t) <= tol:
@@ -281,6 +317,18 @@ def check_poly_table(case, rec):
             got = scaling.TableScaling(np.array(pre), np.array(scaled), 0xFFFFFFFF).scale(x.copy())
             want = SC.clamped_interp(x, scaled_sorted, pre_sorted)
             mag = np.full(x.shape, max(abs(v) for v in pre)) * 4
+            # the same table defined through properties, fed by NI_Scale[0] (a Linear scale), i.e. input source 0
+            graph = [{'type': 'Linear', 'slope': 0.5, 'intercept': 1.0, 'src': None, 'explicit_src': False},
+                     {'type': 'Table', 'scaled': scaled, 'pre': pre, 'src': 0, 'explicit_src': True}]
+            props = {name: value for (name, _pt, value) in SC.graph_props(graph, True)}
+            chained = np.asarray(scaling.get_scaling(props, {}, {}).scale(_Raw(x.copy())), dtype=np.float64)
+            want_chained = SC.clamped_interp(x * 0.5 + 1.0, scaled_sorted, pre_sorted)
+            tolc = 1e-9 * np.maximum(mag, 1e-300) + 1e-300
+            badc = np.nonzero(~(np.abs(chained - want_chained) <= tolc))[0]
+            if len(badc):
+                i = int(badc[0])
+                rec.violation('table:formula', 'table fed by NI_Scale[0] (0.5 x + 1): x=%r gives %r, reference %r' % (
+                    x[i], chained[i], want_chained[i]))
     except Exception as e:      # noqa
         rec.violation('%s:raised' % case['kind'], describe_exc(e), key=exc_key(e))
         return
